@@ -88,7 +88,7 @@ ev("CreateFeed", "u2", "fx", **dict(CREATE, provs=["p1", "p1"]))
 ev("CreateFeed", "u2", "fb", pay="nested", **dict(CREATE, agg="max", timeout=1, freq=1))
 ev("StartFeed", "u2", "fb")
 ev("CreateFeed", "p1", "FA", pay="index", **dict(CREATE, agg="min", provs=["?upper"], timeout=1, freq=2))
-ev("CreateFeed", "u2", "fg", **dict(CREATE, provs=["p1", "?garbage"], thr=2))
+ev("CreateFeed", "u2", "fg", **dict(CREATE, provs=["p1", "?garbage"], thr=2))   # refused since 8afa321 (R7-3)
 ev("CreateFeed", "u2", "fm", **dict(CREATE, provs=["?module", "p2", "u1"], thr=3))
 end()          # batch 1 of fa (expires at 5), batch 1 of fb (expires at 4)
 
@@ -137,7 +137,8 @@ ev("EditFeed", "u1", "fa", thr=3)
 ev("EditFeed", "u1", "fa", timeout=3, freq=3)
 ev("EditFeed", "u1", "fa", timeout=2, freq=1)
 ev("EditFeed", "u1", "fa", freq=1)
-ev("EditFeed", "u2", "fg", provs=["p2", "?valoper"])
+ev("EditFeed", "u2", "fm", provs=["p2", "?valoper"])                       # refused since 8afa321 (R7-3)
+ev("EditFeed", "u2", "fm", provs=["?upper", "?module"], thr=2)
 ev("StartFeed", "u1", "fa")
 answer("p1", "fb", 3, "dupbody")
 answer("p2", "fb", -2, "extra")
